@@ -21,6 +21,8 @@ type cfg08 struct {
 	// acl: subscriber A is an all-targets subscriber that is denied t2, the
 	// writer updates t2 (every response for it is dropped), then everybody idles
 	acl bool
+	// amode: subscription mode of the stalled subscriber A (default STREAM)
+	amode pb.SubscriptionList_Mode
 }
 
 func configs08(tier string) []xplore.Config {
@@ -44,6 +46,10 @@ func configs08(tier string) []xplore.Config {
 	}
 	out = append(out, xplore.Config{Name: "A stall=permanent updates_only=true | B normal | W=1500 distinct leaves", Bound: 0, Data: cfg08{stall: "permanent", updatesOnly: true, script: many}})
 	out = append(out, xplore.Config{Name: "A stall=never on * with an ACL denying t2 | B normal | W(t2)=upd a/b;upd a/b then idle", Bound: bound + 1, Data: cfg08{stall: "never", script: []wop{{"upd", "a/b"}, {"upd", "a/b"}}, acl: true}})
+	// the send time-out ends a stalled subscription in every mode
+	for _, md := range []pb.SubscriptionList_Mode{pb.SubscriptionList_ONCE, pb.SubscriptionList_POLL} {
+		out = append(out, xplore.Config{Name: fmt.Sprintf("A mode=%v stall=permanent | B normal | W=upd a/b;upd a/b;upd a/b", md), Bound: bound, Data: cfg08{stall: "permanent", script: scripts[1], amode: md}})
+	}
 	for _, st := range []string{"never", "transient", "permanent", "slow"} {
 		for _, uo := range []bool{true, false} {
 			for si, sc := range scripts {
@@ -128,7 +134,7 @@ func run08(cfg xplore.Config, ch vrt.Chooser, trace bool) (xplore.Outcome, *vrt.
 		if stall == "never" {
 			stall = ""
 		}
-		a := newStream(subSpec{target: "t1", paths: []string{"a"}, mode: pb.SubscriptionList_STREAM, updatesOnly: d.updatesOnly, stall: stall})
+		a := newStream(subSpec{target: "t1", paths: []string{"a"}, mode: d.amode, updatesOnly: d.updatesOnly, stall: stall})
 		b := newStream(subSpec{target: "t1", paths: []string{"a"}, mode: pb.SubscriptionList_STREAM})
 		w.streams = []*fstream{a, b}
 		for i, st := range w.streams {
